@@ -34,10 +34,17 @@ and full_version assignments whose value consists of version characters only but
 epoch, colon after the last hyphen, nothing after the epoch), i.e. refused by a check that comes after the
 character/shape check.  Whether an epoch > INT_MAX must be accepted is UNSPECIFIED (local classify() adds the verdict
 'big-epoch': never judged accept/reject); atomicity and self-consistency are judged in full.
+Round-9 class (keys alias/*, debian-version-alias-differs): THE ALIAS SPELLING OF THE REVISION ATTRIBUTE.  debian_version
+is the compatibility alias of debian_revision: both names always read the same value (checked wherever the revision is
+read, also on unspecified strings), and every assignment through one of the two names (valid, invalid, '', None = remove
+the revision) is repeated through the OTHER name on an identical twin object (M.alias): both must raise ValueError
+leaving their object unchanged, or both must succeed with identical observables.  A targeted enumeration drives
+(name) x (value class) x (object shape: revision / epoch set or not, colon / hyphen inside the upstream version).
 Auxiliary monitor K7 (contract on BaseVersion.__setattr__, attached with
 vp.contracts.wrap, normal and exceptional exit): after a normal exit
 full_version == recompose(epoch, upstream_version, debian_revision); after an
-exceptional exit all four observables equal their values at entry.
+exceptional exit all four observables equal their values at entry; at the exit of the outermost magic assignment
+(K7.alias) debian_version reads the same as debian_revision.
 """
 import itertools
 import shutil
@@ -84,7 +91,18 @@ RULE = ('Constructor cases: ALL strings of length <= 4 (quick) / <= 5 (thorough)
         'number (8%); debian_revision / debian_version / upstream_version = ordinary valid and invalid values, which hit '
         'objects that carry a very large epoch (16%); small / invalid / None epoch (6%); any ordinary assignment (8%); '
         'with copy constructions (30%) and fresh constructions as above.  Counters bigepoch:* and late:* are decided '
-        'from the model and the assigned value, never from what the library did.')
+        'from the model and the assigned value, never from what the library did.  '
+        'The two spellings of the revision attribute: debian_revision and debian_version are drawn equally often in every '
+        'generator above, with the same values (None, "", revisions, ints, re-splitting values, values with a colon or a '
+        'foreign character); EVERY assignment through one of the two names, in every history, is repeated through the other '
+        'name on a twin object built from the string the assigned-to object had just before (differential M.alias); a '
+        'targeted enumeration that does not depend on VERIF_SEED adds one-assignment histories = 27 initial versions (3 for '
+        'each of the 9 object shapes revision set / not set x epoch set / not set x colon inside the upstream version x '
+        'hyphen inside the upstream version) x 27 (quick) / 48 (thorough) values x both names, class Version for all and '
+        'BaseVersion for one initial version per shape (quick) / all (thorough), and two-assignment histories = 27 initial '
+        'versions x (both names x 3 / 8 first values) x (both names x 8 / 48 second values); one eighth of the enumeration '
+        'runs before the constructor enumeration.  Counters alias:cell:<name>:<value class>:<object shape> (value class '
+        'none / empty / valid / resplit / invalid) are decided from the model and the assigned value only.')
 ASSUMPTIONS = [
     'vp.models.dpkgver.classify/split is the reference for Debian Policy 5.6.12 syntax (cross-checked against the dpkg binary on a sample in the thorough tier); the Policy "should start with a digit" recommendation is not demanded',
     'strings whose last-hyphen split leaves an empty side ("1-", "-1", "0:-1") are UNSPECIFIED: neither acceptance nor rejection nor their decomposition is judged',
@@ -100,6 +118,10 @@ ASSUMPTIONS = [
     'what IS judged with very large epochs: if the constructor / assignment / copy takes the string, str() and full_version must equal it and the components must be its Policy decomposition (the epoch text unchanged, no normalisation); every assignment that raises ValueError must leave all six public observables unchanged (also when the object already carries a very large epoch, also for full_version); a history whose big-epoch initial string is refused by the constructor is skipped (counted bigepoch:hist-init-refused)',
     'late-refused full_version values are defined independently of the library regex: non-empty, only characters of [A-Za-z0-9.+~:-], and MUST-REJECT by the reference classifier (reasons colon-without-numeric-epoch, colon-after-last-hyphen, empty-upstream); the ordinary assignment oracle judges them (ValueError + unchanged, or a named accepts-* mechanism)',
     'floors on bigepoch:* / late:* counters use only outcome-independent counters, so a correct library that refuses every epoch > INT_MAX atomically is HELD, not INCONCLUSIVE; the outcome-dependent floor bigepoch:assign-on-big-object is applied (in conclusive()) only when the library accepted at least half of the big-epoch constructor strings',
+    'debian_version is the compatibility alias of debian_revision (same component): reading the two names on one object must give the same value at every point where the harness reads the revision - also on UNSPECIFIED strings, whose decomposition is otherwise not judged (key debian-version-alias-differs; inside K7 the two names are compared at the exit of the OUTERMOST magic assignment only, never at the exit of the nested full_version assignment)',
+    'alias differential: an assignment through one of the two names is repeated through the other name on a twin built by the constructor from str() of the assigned-to object as it was before the assignment; the twin is used only when it reads identically on all six public observables (otherwise counted alias:twin-skipped and left to the construction oracles); demanded: both raise ValueError (each object unchanged) or both succeed with identical observables - acceptance / rejection must not depend on the name (keys alias/acceptance-depends-on-attribute-name, alias/result-depends-on-attribute-name).  What the common outcome has to be is decided by the ordinary assignment oracle on the assigned-to object only, so an implementation that refuses a valid recomposition through BOTH names alike stays tolerated; None means "remove the revision" for both names',
+    'the contract monitor K7 is suspended while the twin is built and assigned to (cost); a twin whose failed assignment changed it is reported under failed-assignment-changes-object from the six public observables',
+    'floors on alias:cell:* cover the 9 object shapes that valid versions have (a colon inside the upstream version only with an epoch, a hyphen only with a revision) x 5 value classes x 2 names; the further shapes that occur on UNSPECIFIED current strings ("1.0-" reads as upstream "1.0-" without revision) are counted without a floor',
     'Version is NativeVersion (python-apt absent); BaseVersion is exercised as well; the class exercised is recorded in coverage.version_class',
 ]
 ANCHORS = ['debian.debian_support:BaseVersion._set_full_version',
@@ -116,8 +138,8 @@ ALPHABET = ['1', '0', 'a', '.', '+', '~', '-', ':', ' ', '\n', '_', 'é', '٣', 
 ENUM_LEN = {'quick': 4, 'thorough': 5}
 SMALL_ALPHABET = ['1', 'a', ':', '-']
 SMALL_LEN = {'quick': (5, 7), 'thorough': (6, 8)}
-RANDOM_STRINGS = {'quick': 80000, 'thorough': 4000000}
-HISTORIES = {'quick': 20000, 'thorough': 1200000}
+RANDOM_STRINGS = {'quick': 76000, 'thorough': 4000000}
+HISTORIES = {'quick': 19000, 'thorough': 1200000}
 ATOMIC_HISTORIES = {'quick': 6000, 'thorough': 300000}      # in addition to HISTORIES
 BIG_RANDOM_STRINGS = {'quick': 4000, 'thorough': 200000}    # in addition to RANDOM_STRINGS
 DPKG_SAMPLE = 300
@@ -128,7 +150,7 @@ DPKG_SAMPLE = 300
 # outcome-dependent ones are in conclusive())
 FLOORS = {'quick': {'nontrivial': 86000,
                     'monitors': {'M.construct': 85000, 'M.assign': 42000, 'M.rollback': 16500, 'K7': 215000, 'K7.raise': 28000,
-                                 'M.copy': 5200, 'M.fresh': 53000, 'M.isolation': 129000},
+                                 'M.copy': 5200, 'M.fresh': 53000, 'M.isolation': 129000, 'M.alias': 18500, 'K7.alias': 175000},
                     'counters': {'construct:accept/accepted': 18000, 'construct:reject/rejected': 64000,
                                  'assign:ok': 25500, 'assign:raised': 16500,
                                  'hist:init-from-pool': 5400, 'copy:mutate-copy': 2600, 'copy:mutate-original': 2600,
@@ -169,9 +191,22 @@ FLOORS = {'quick': {'nontrivial': 86000,
                                     'late:full_version:empty-upstream': 16000,
                                     'late:full_version:on-object-with-epoch-and-revision': 120000}}}
 
+# the two spellings of the revision attribute: one floor for every (name, value class, object shape) cell, about 50% of the
+# smallest cell measured on the unchanged tree (minimum over VERIF_SEED 0..3); a run that never assigns None / '' / valid /
+# re-splitting / invalid values through BOTH names to every object shape is INCONCLUSIVE
+ALIAS_CELL_FLOOR = {'quick': {'none': 75, 'empty': 50, 'valid': 250, 'resplit': 45, 'invalid': 150},
+                    'thorough': {'none': 1, 'empty': 1, 'valid': 1, 'resplit': 1, 'invalid': 1}}
+ALIAS_FLOOR_SHAPES = ('norev/noepoch', 'norev/epoch', 'norev/epoch/colon', 'rev/noepoch', 'rev/noepoch/hyphen', 'rev/epoch',
+                      'rev/epoch/colon', 'rev/epoch/hyphen', 'rev/epoch/colon/hyphen')
+for _tier, _floors in ALIAS_CELL_FLOOR.items():
+    for _name in ('debian_revision', 'debian_version'):
+        for _vc, _floor in _floors.items():
+            for _shape in ALIAS_FLOOR_SHAPES:
+                FLOORS[_tier]['counters']['alias:cell:%s:%s:%s' % (_name, _vc, _shape)] = _floor
+
 # outcome-dependent floors: demanded only when the library under observation accepts very large epochs at all
 BIG_OBJECT_FLOORS = {'quick': {'bigepoch:assign-on-big-object': 5900, 'late:full_version:on-big-epoch-object': 1800,
-                               'bigepoch:assign:debian_version': 520, 'bigepoch:assign:debian_revision': 340,
+                               'bigepoch:assign:debian_version': 480, 'bigepoch:assign:debian_revision': 480,
                                'bigepoch:assign:upstream_version': 860},
                      'thorough': {'bigepoch:assign-on-big-object': 300000, 'late:full_version:on-big-epoch-object': 94000,
                                   'bigepoch:assign:debian_version': 27000, 'bigepoch:assign:debian_revision': 18000,
@@ -295,28 +330,50 @@ def is_nontrivial_string(s):
 # K7: contract on BaseVersion.__setattr__
 
 K7_FAILS = []          # (key, msg) produced by K7 during the current operation
-K7_COUNT = {'K7.raise': 0, 'K7.post': 0}
+K7_COUNT = {'K7.raise': 0, 'K7.post': 0, 'K7.alias': 0}
 
 
-def _observe(v):
-    return (getattr(v, 'full_version', UNSET), getattr(v, 'epoch', UNSET),
-            getattr(v, 'upstream_version', UNSET), getattr(v, 'debian_revision', UNSET))
+def _observe(v, alias=False):
+    obs = (getattr(v, 'full_version', UNSET), getattr(v, 'epoch', UNSET),
+           getattr(v, 'upstream_version', UNSET), getattr(v, 'debian_revision', UNSET))
+    if alias:
+        obs += (getattr(v, 'debian_version', UNSET),)
+    return obs
+
+
+# nesting depth of magic-attribute assignments (a component assignment assigns full_version from inside): the alias
+# spelling debian_version is read and compared with debian_revision at the OUTERMOST exit only (method boundary of the
+# call the client made), never at an inner one; reset by _drain_k7() between operations
+K7_DEPTH = [0]
 
 
 def _k7_snapshot(self, attr, value):
     # K7 is stated for the magic attributes only: the private slots are written
     # through the same __setattr__ in the middle of an assignment (transient state)
-    return _observe(self) if attr in ATTRS else None
+    if attr not in ATTRS:
+        return None
+    K7_DEPTH[0] += 1
+    return _observe(self)
+
+
+def _k7_alias(now, attr, value, how):
+    K7_COUNT['K7.alias'] += 1
+    if now[4] != now[3]:
+        K7_FAILS.append(('K7/debian-version-alias-differs',
+                         'after __setattr__(%r, %r) %s: debian_version=%r but debian_revision=%r'
+                         % (attr, value, how, now[4], now[3])))
 
 
 def _k7_post(old, result, self, attr, value):
     if old is None:
         return
-    now = _observe(self)
+    K7_DEPTH[0] = max(0, K7_DEPTH[0] - 1)
+    outer = K7_DEPTH[0] == 0
+    now = _observe(self, alias=outer)
     if UNSET in now:
         return
     K7_COUNT['K7.post'] += 1
-    full, ep, up, rev = now
+    full, ep, up, rev = now[:4]
     try:
         want = recompose(ep, up, rev)
     except TypeError:
@@ -325,18 +382,25 @@ def _k7_post(old, result, self, attr, value):
         K7_FAILS.append(('K7/full-version-not-recomposition-of-components',
                          'after __setattr__(%r, %r): full_version=%r but components (%r, %r, %r) recompose to %r'
                          % (attr, value, full, ep, up, rev, want)))
+    if outer:
+        _k7_alias(now, attr, value, 'returned')
 
 
 def _k7_on_raise(old, exc, self, attr, value):
     if old is None:
         return
-    now = _observe(self)
+    K7_DEPTH[0] = max(0, K7_DEPTH[0] - 1)
+    outer = K7_DEPTH[0] == 0
+    now = _observe(self, alias=outer)
     if old != tuple(UNSET for _ in old):
         K7_COUNT['K7.raise'] += 1
-    if now != old:
+    if now[:4] != old:
         K7_FAILS.append(('K7/exceptional-exit-changed-object',
                          '__setattr__(%r, %r) raised %s but (full_version, epoch, upstream_version, debian_revision) '
-                         'went %r -> %r' % (attr, value, type(exc).__name__, old, now)))
+                         'went %r -> %r' % (attr, value, type(exc).__name__, old, now[:4])))
+    elif outer and UNSET not in now:
+        # the four observables are as they were: the alias spelling must still read the (unchanged) revision
+        _k7_alias(now, attr, value, 'raised %s' % type(exc).__name__)
 
 
 def setup(ctx):
@@ -347,6 +411,10 @@ def setup(ctx):
     # self-consistency of the two reference functions (harness bug otherwise)
     for s in ['', '1', 'a:1', '1:', '1:1-a:b', '1-', '-1', '1:2:3', '1 0', '1\n', '1--1', '0:-1', '٣:1']:
         assert (reject_reason(s) is not None) == (dpkgver.classify(s) == 'reject'), s
+    for shape, inits in ALIAS_INITS.items():
+        for init in inits:
+            if dpkgver.classify(init) != 'accept' or alias_shape(dpkgver.split(init)) != shape:
+                raise RuntimeError('harness: ALIAS_INITS entry %r is not a valid version of shape %s' % (init, shape))
     contracts.wrap(ds.BaseVersion, '__setattr__', 'K7', snapshot=_k7_snapshot, post=_k7_post, on_raise=_k7_on_raise)
 
 
@@ -357,7 +425,8 @@ def finish(ctx):
     ctx.monitor_evals['K7'] += K7_COUNT['K7.raise'] + K7_COUNT['K7.post']
     ctx.monitor_evals['K7.raise'] += K7_COUNT['K7.raise']
     ctx.monitor_evals['K7.post'] += K7_COUNT['K7.post']
-    K7_COUNT['K7.raise'] = K7_COUNT['K7.post'] = 0
+    ctx.monitor_evals['K7.alias'] += K7_COUNT['K7.alias']
+    K7_COUNT['K7.raise'] = K7_COUNT['K7.post'] = K7_COUNT['K7.alias'] = 0
 
 
 # ---------------------------------------------------------------------------
@@ -510,6 +579,97 @@ def make_pool(r):
     return pool
 
 
+# -- the two spellings of the revision attribute (debian_revision and its compatibility alias debian_version) ----------
+REV_NAMES = ('debian_revision', 'debian_version')
+ALIAS_VCLASSES = ('none', 'empty', 'valid', 'resplit', 'invalid')
+# object shapes (decided from the model): revision set or not, epoch set or not, colon / hyphen inside the upstream version
+ALIAS_INITS = {
+    'norev/noepoch': ['1.0', '2.3~rc1+dfsg', 'a'],
+    'norev/epoch': ['1:1.0', '0:2.3+b1', '007:a'],
+    'norev/epoch/colon': ['1:1:2', '2:a:1.0', '1:2.0:1'],
+    'rev/noepoch': ['1.0-1', '2.3-0ubuntu1', 'a-1~bpo1'],
+    'rev/noepoch/hyphen': ['1-2-3', '1.0-rc1-1', 'a-b-c-0.1'],
+    'rev/epoch': ['1:1.0-1', '2:2.3~rc1-0.1', '0:a-a'],
+    'rev/epoch/colon': ['1:2.0:1-3', '2:a:b-1', '1:1:2-0ubuntu1'],
+    'rev/epoch/hyphen': ['1:1-2-3', '3:1.0-rc1-1', '12:a--1'],
+    'rev/epoch/colon/hyphen': ['1:1:2-3-4', '1:1-a:b-1', '2:a:b-c-1'],
+}
+ALIAS_SHAPES = tuple(sorted(ALIAS_INITS))
+ALIAS_VALUES = [None, '', '1', '0', '2', '10', '1~bpo10+1', '1.2', 'a', '~', '+', '.', '0ubuntu1', '+b2', 'None', 0, 5, 12,
+                '1-2', '-', '-1', '1-', 'a-b-c',
+                'a:b', ':', '1:', ':1', '1:2', '0:1-1', '1\n', '\n', '\n1', ' ', '1 ', ' 1', '_', '1_', 'é', '1é', '٣', '²',
+                '\t', '\r', '\x00', '1/2', '1,2', 'ß', '１']
+# the quick tier enumerates a subset of the values (every value class is still there)
+ALIAS_VALUES_QUICK = [None, '', '1', '0', '1~bpo10+1', 'a', '~', 'None', 0, 5,
+                      '1-2', '-', '-1', '1-',
+                      'a:b', ':', '1:', ':1', '1\n', '\n', ' ', '1 ', '_', 'é', '٣', '²', '\t']
+ALIAS_FIRST_VALUES = {'quick': ALIAS_VALUES_QUICK, 'thorough': ALIAS_VALUES}
+# first assignments of the two-step enumeration (the object has been assigned to through one of the names before)
+ALIAS_PRE_VALUES = {'quick': [None, '', '1'], 'thorough': [None, '', '1', '2~b', 3, '1-2', 'a:b', ' ']}
+ALIAS_SECOND_VALUES = {'quick': [None, '', '1', 5, '1-2', 'a:b', '1\n', '٣'],
+                       'thorough': ALIAS_VALUES}
+
+
+def other_name(attr):
+    return REV_NAMES[1 - REV_NAMES.index(attr)]
+
+
+def alias_vclass(value):
+    """Class of a value assigned to the revision: None, '', a revision, a string of version characters with a hyphen and
+    no colon (re-splits), anything else (colon or foreign character: never a revision)."""
+    if value is None:
+        return 'none'
+    sval = str(value)
+    if sval == '':
+        return 'empty'
+    if all(ch in dpkgver.REVISION_CHARS for ch in sval):
+        return 'valid'
+    if all(ch in dpkgver.UPSTREAM_CHARS for ch in sval) and ':' not in sval:
+        return 'resplit'
+    return 'invalid'
+
+
+def alias_shape(model):
+    e, u, r = model
+    parts = ['rev' if r is not None else 'norev', 'epoch' if e is not None else 'noepoch']
+    if isinstance(u, str) and ':' in u:
+        parts.append('colon')
+    if isinstance(u, str) and '-' in u:
+        parts.append('hyphen')
+    return '/'.join(parts)
+
+
+def alias_enumeration(tier):
+    """Targeted enumeration (independent of VERIF_SEED; order fixed by a constant shuffle so that every shard gets a
+    mixture): every listed object shape x every listed value x both attribute names as one-assignment histories (class
+    Version for every initial version, BaseVersion for every one in the thorough tier and for the first of each shape in
+    the quick tier), and two-assignment histories in which the object was assigned to through either name before."""
+    import random
+    out = []
+    inits = [s for shape in ALIAS_SHAPES for s in ALIAS_INITS[shape]]
+    first = set(ALIAS_INITS[shape][0] for shape in ALIAS_SHAPES)
+    for init in inits:
+        for value in ALIAS_FIRST_VALUES[tier]:
+            for name in REV_NAMES:
+                for cls in ('Version', 'BaseVersion'):
+                    if cls == 'BaseVersion' and tier == 'quick' and init not in first:
+                        continue
+                    ops = [[name, value]]
+                    if tier != 'quick':
+                        ops.append(['@fresh', {'adopt': False}])
+                    out.append({'kind': 'hist', 'init': init, 'cls': cls, 'src': 'alias-enum', 'ops': ops})
+    for init in inits:
+        for name1 in REV_NAMES:
+            for value1 in ALIAS_PRE_VALUES[tier]:
+                for name2 in REV_NAMES:
+                    for value2 in ALIAS_SECOND_VALUES[tier]:
+                        for cls in (('Version',) if tier == 'quick' else ('Version', 'BaseVersion')):
+                            out.append({'kind': 'hist', 'init': init, 'cls': cls, 'src': 'alias-enum2',
+                                        'ops': [[name1, value1], [name2, value2]]})
+    random.Random('C14/alias-enumeration').shuffle(out)
+    return out
+
+
 # -- very large epochs, and full_version values that are refused only after the character/shape check -----------------
 BIG_EPOCHS = ['2147483647', '2147483648', '2147483649', '4294967295', '4294967296', '4294967297',
               '9223372036854775807', '9223372036854775808', '18446744073709551615', '18446744073709551616',
@@ -595,7 +755,7 @@ def _atomic_op(r):
                                               int(gen_big_epoch(r))])]
     if k < 0.86:
         # other components (valid and invalid values) - matters on an object that carries a very large epoch
-        attr = r.choice(['debian_revision', 'debian_version', 'debian_version', 'upstream_version'])
+        attr = r.choice(['debian_revision', 'debian_revision', 'debian_version', 'debian_version', 'upstream_version'])
         if attr == 'upstream_version':
             return [attr, r.choice(UPSTREAM_VALUES)]
         return [attr, r.choice(REVISION_VALUES + ['2147483648', '99999999999999999999', 2 ** 63, '4294967296:1',
@@ -632,7 +792,7 @@ def gen_atomic_history(r):
 
 def _random_op(r):
     attr = r.choice(['epoch', 'epoch', 'upstream_version', 'upstream_version', 'debian_revision',
-                     'debian_revision', 'debian_version', 'full_version'])
+                     'debian_revision', 'debian_version', 'debian_version', 'full_version'])
     if attr == 'epoch':
         val = r.choice(EPOCH_VALUES)
     elif attr == 'upstream_version':
@@ -649,7 +809,7 @@ def _removal_op(r):
     if k < 0.35:
         return ['epoch', None]
     if k < 0.65:
-        return [r.choice(['debian_revision', 'debian_revision', 'debian_version']), r.choice([None, None, None, ''])]
+        return [r.choice(REV_NAMES), r.choice([None, None, None, ''])]
     if k < 0.78:
         return ['epoch', r.choice(['0', '1', '5', 3])]               # put an epoch (back)
     if k < 0.88:
@@ -697,10 +857,23 @@ def cases(ctx):
     n_hist = ctx.size(HISTORIES['quick'], HISTORIES['thorough'])
     ra = ctx.rng('atomic')
     n_atomic = ctx.size(ATOMIC_HISTORIES['quick'], ATOMIC_HISTORIES['thorough'])
+    # the two spellings of the revision attribute: targeted enumeration, one eighth of it before the constructor enumeration
+    alias_all = alias_enumeration(ctx.tier)
+    alias_mine = [c for j, c in enumerate(alias_all) if ctx.mine(j)]
+    if ctx.shard == 0:
+        ctx.extra['exhaustive_subspaces'].append(
+            'revision attribute: %d one-assignment histories = %d initial versions (9 object shapes: revision / epoch set or '
+            'not, colon / hyphen inside the upstream version) x %d values (None, "", revisions, re-splitting values, invalid '
+            'values) x {debian_revision, debian_version} (class Version; BaseVersion too for all / one per shape), plus %d two-assignment histories (first '
+            'assignment: %d values x both names), each assignment repeated through the other name on an identical object'
+            % (sum(1 for c in alias_all if c['src'] == 'alias-enum'), sum(len(v) for v in ALIAS_INITS.values()),
+               len(ALIAS_FIRST_VALUES[ctx.tier]), sum(1 for c in alias_all if c['src'] == 'alias-enum2'), len(ALIAS_PRE_VALUES[ctx.tier])))
     for _ in range(n_hist // 8):
         yield gen_history(rh, pool)
     for _ in range(n_atomic // 8):
         yield gen_atomic_history(ra)
+    for c in alias_mine[:len(alias_mine) // 8]:
+        yield c
     i = 0
     # the enumeration index is skewed by i // 14 so that a shard does not receive only the strings that end in one
     # particular symbol (14 symbols, 14 thorough shards)
@@ -748,6 +921,8 @@ def cases(ctx):
         if k > 0.85:
             s = mutate(r, s)
         yield {'kind': 'str', 's': s, 'src': 'random-big-epoch'}
+    for c in alias_mine[len(alias_mine) // 8:]:
+        yield c
     for _ in range(n_hist - n_hist // 8):
         yield gen_history(rh, pool)
     for _ in range(n_atomic - n_atomic // 8):
@@ -772,6 +947,7 @@ def cases(ctx):
 # boundary monitor
 
 def _drain_k7():
+    K7_DEPTH[0] = 0
     fails = list(K7_FAILS)
     K7_FAILS[:] = []
     return fails
@@ -804,6 +980,12 @@ def check_construct(ctx, s, clsname='Version', count=True):
         if has_big_epoch(s):
             ctx.count('bigepoch:construct')          # whatever the verdict and whatever the library did
     if accepted is None or verdict == 'unspecified':
+        if accepted:
+            # decomposition not judged, but the two spellings of the revision attribute read the same component
+            rev, rev2 = v.debian_revision, v.debian_version
+            if rev2 != rev:
+                out.append(('debian-version-alias-differs', '%s(%r): debian_version=%r debian_revision=%r'
+                            % (clsname, s, rev2, rev)))
         return out + k7
     if verdict == 'big-epoch' and not accepted:
         return out + k7      # refusing an epoch > INT_MAX is not judged
@@ -876,6 +1058,58 @@ def _check_watched(ctx, watched, what, step, count, changed):
                         '%s; the %s (never assigned to since) went (str, full_version, epoch, upstream_version, '
                         'debian_revision, debian_version) %r -> %r' % (what, label.replace('-', ' '), snap, now), step))
     return out
+
+
+def _alias_differential(ctx, cls, clsname, attr, value, before, raised, after, model, step, count):
+    """The same assignment through the OTHER spelling of the revision attribute, on a twin object built from the string
+    the assigned-to object had just before: acceptance and result must not depend on the name.  Returns [(key, msg, step)].
+    The cell counter (name x value class x object shape) is decided from the model and the value only."""
+    other = other_name(attr)
+    if count:
+        ctx.count('alias:cell:%s:%s:%s' % (attr, alias_vclass(value), alias_shape(model)))
+    # the contract monitor K7 is suspended while the twin is built and assigned to (cost); the twin is judged here, at
+    # the boundary, on all six public observables
+    twin = twin_raised = error = None
+    contracts._DEPTH[0] += 1
+    try:
+        try:
+            twin = cls(before[0])
+            twin_before = _public(twin)
+        except Exception:
+            twin = None
+        if twin is not None and twin_before == before:
+            try:
+                setattr(twin, other, value)
+            except ValueError as exc:
+                twin_raised = exc
+            except Exception as exc:
+                error = exc
+    finally:
+        contracts._DEPTH[0] -= 1
+    if twin is None or twin_before != before:
+        # no identical second object to be had (judged by the construction oracles, not here)
+        if count:
+            ctx.count('alias:twin-skipped')
+        return []
+    if error is not None:
+        return [('assignment-raises-non-valueerror', '%r on %r: %s=%r raised %s: %s'
+                 % (clsname, before[0], other, value, type(error).__name__, error), step)]
+    twin_after = _public(twin)
+    if count:
+        ctx.mon('M.alias')
+        ctx.count('alias:%s-then-%s:%s/%s' % (attr, other, 'raised' if raised else 'ok', 'raised' if twin_raised else 'ok'))
+    what = ('%s=%r on %s(%r) %s, %s=%r on an identical object %s' %
+            (attr, value, clsname, before[0], 'raised ValueError' if raised else 'succeeded -> %r' % (after,),
+             other, value, 'raised ValueError' if twin_raised else 'succeeded -> %r' % (twin_after,)))
+    if twin_raised is not None and twin_after != twin_before:
+        return [('failed-assignment-changes-object',
+                 '%s=%r on %r raised ValueError but (str, full_version, epoch, upstream_version, debian_revision, '
+                 'debian_version) went %r -> %r' % (other, value, before[0], twin_before, twin_after), step)]
+    if (raised is None) != (twin_raised is None):
+        return [('alias/acceptance-depends-on-attribute-name', what, step)]
+    if raised is None and twin_after != after:
+        return [('alias/result-depends-on-attribute-name', what, step)]
+    return []
 
 
 def play_history(ctx, case, count=True):
@@ -1100,6 +1334,9 @@ def play_history(ctx, case, count=True):
                               if raised else 'succeeded'), step, count, after != before)
         if leak:
             return out + leak
+        diff = []
+        if attr in REV_NAMES:
+            diff = _alias_differential(ctx, cls, clsname, attr, value, before, raised, after, model, step, count)
         if raised is not None:
             n_raised += 1
             if count:
@@ -1116,7 +1353,8 @@ def play_history(ctx, case, count=True):
                     ctx.count('K7:fired-coincident-with-boundary-finding', len(k7))
                 return out          # K7 reports the same event; the boundary key names it
             out.extend((k, m, step) for (k, m) in k7)
-            if k7:
+            out.extend(diff)
+            if k7 or diff:
                 return out
             continue
         # ---- the assignment succeeded
@@ -1154,11 +1392,16 @@ def play_history(ctx, case, count=True):
             model = want
         else:
             # unspecified string (empty side of the last-hyphen split): decomposition not judged; follow the object
+            if rev2 != rev:
+                out.append(('debian-version-alias-differs', 'after %s=%r on %r the version is %r and debian_version=%r but '
+                            'debian_revision=%r' % (attr, value, before[0], sv, rev2, rev), step))
+                return out
             if not (isinstance(up, str) and (ep is None or isinstance(ep, str)) and (rev is None or isinstance(rev, str))):
                 return out
             model = (ep, up, rev)
         out.extend((k, m, step) for (k, m) in k7)
-        if k7:
+        out.extend(diff)
+        if k7 or diff:
             return out
     if count:
         LAST_FINAL[0] = str(v)
@@ -1303,7 +1546,9 @@ LEVEL_TEXT = ('Runtime monitoring: every string of length <= 4 (quick) / <= 5 (t
               'pool of 36 initial strings constructed over and over, a watched sibling / long-lived object per string, copy '
               'constructions with the copy or the original assigned to, fresh constructions from the initial, current and '
               'earlier strings after the assignments, and targeted epoch / revision removals from versions whose upstream '
-              'version contains a colon / hyphen.  Held-on-observed, not a proof: reach is the enumerated '
+              'version contains a colon / hyphen.  Every assignment to debian_revision / debian_version is repeated through '
+              'the other name on an identical object (same acceptance, same result), driven also by a targeted enumeration of '
+              'name x value class x object shape.  Held-on-observed, not a proof: reach is the enumerated '
               'sub-spaces plus the sampled strings and histories.')
 LEVEL_NOTE = ('Trusted: CPython, vp.models.dpkgver.classify/split (cross-checked against the dpkg binary on a sample in the '
               'thorough tier), the generators.  Strings whose last-hyphen split has an empty side are not judged; an assignment '
